@@ -28,6 +28,7 @@ type skelWriter struct {
 	fset   *token.FileSet
 	info   *types.Info
 	objIDs map[types.Object]int
+	sel    map[*ast.Ident]bool // identifiers that are the Sel of a selector expression (a fact about the syntax tree)
 }
 
 func sq(s string) string {
@@ -366,6 +367,10 @@ func (s *skelWriter) attrsOf(n ast.Node, roles map[*ast.CommentGroup]string) nod
 		a.tok = v.Tok.String()
 	case *ast.SelectorExpr:
 		a.kind = "SelectorExpr"
+		if s.sel == nil {
+			s.sel = map[*ast.Ident]bool{}
+		}
+		s.sel[v.Sel] = true
 		a.name = v.Sel.Name
 		a.ty = s.ty(s.info.TypeOf(v.X))
 		a.obj = s.obj(s.info.ObjectOf(v.Sel))
@@ -375,6 +380,7 @@ func (s *skelWriter) attrsOf(n ast.Node, roles map[*ast.CommentGroup]string) nod
 		a.kind = "StarExpr"
 	case *ast.Ident:
 		a.kind = "Ident"
+		a.flag = s.sel[v]
 		a.name = v.Name
 		a.ty = s.ty(s.info.TypeOf(v))
 		a.obj = s.obj(s.info.ObjectOf(v))
